@@ -263,6 +263,10 @@ def run(prog: Program, L: Ledger) -> None:
                 # value just before the statement that performs the draw
                 draw_stmt = next(s for s in free_branch if any(isinstance(n, ast.Call) and norm(n) == norm(yv) for n in ast.walk(s)))
                 pv = block_value(free_branch, p.id, draw_stmt)
+                hops = 0
+                while isinstance(pv, ast.Name) and hops < 4:  # a local standing for another local (same array object)
+                    pv = block_value(free_branch, pv.id, draw_stmt)
+                    hops += 1
             else:
                 pv = p
             ptxt = norm(pv) if pv is not None else "<unknown>"
